@@ -83,6 +83,25 @@ def check(weak, strong, Sw, Ss, arg, cfg, driver, order, out, tier, rng, label='
         out.count('runs_without_verdict')
     if not bad:
         return
+    # a transitive pair: find the DIRECT declaration along the declared chain at which validity is lost,
+    # and report that pair (so one wrong declaration is one mechanism, however many logics sit above it)
+    via = None
+    direct = [lib.logic(x).Meta.name for x in lib.logic(strong).Meta.extension_of]
+    if weak not in direct:
+        path = declared_path(strong, weak)
+        if path:
+            prev_name, prev_out = weak, 'VALID'
+            for nxt in reversed(path[:-1]):           # from just above `weak` up to `strong`
+                o = pc.run_cfg(nxt, arg, cfg, driver, order, tier).outcome
+                out.count('runs')
+                if prev_out == 'VALID' and o == 'INVALID':
+                    via = (prev_name, nxt)
+                    break
+                if o == 'VALID':
+                    prev_name, prev_out = nxt, o
+            if via:
+                weak, strong = via
+                Sw, Ss = rsem.sem(weak), rsem.sem(strong)
     # blame
     blame = 'declaration-or-undetermined'
     detail = {}
@@ -99,10 +118,27 @@ def check(weak, strong, Sw, Ss, arg, cfg, driver, order, out, tier, rng, label='
             blame = 'declaration-wrong' if cw.complete else 'declaration-wrong-or-weaker-unsound-beyond-bound'
     out.violation('extension-loses-validity',
                   dict(weaker=weak, stronger=strong, label=label, argument=gen.arg_to_json(arg), **pc.cfg_json(cfg, driver, order),
-                       stronger_outcome=rs.outcome),
+                       stronger_outcome=rs.outcome, located_on_direct_pair=bool(via)),
                   dict(clause='valid-in-weaker-not-in-stronger', weaker=weak, stronger=strong, blame=blame, **detail),
                   f'{gen.show_arg(arg)} is VALID in {weak} but {rs.outcome} in {strong} (declared: {strong} extends {weak}); blame={blame} {detail}',
                   size=gen.arg_size(arg), env=pc.env_for(order))
+
+
+def declared_path(strong, weak):
+    "A chain strong > ... > weak of direct extension_of declarations (BFS), as a list of names."
+    from collections import deque
+    q = deque([[strong]])
+    seen = {strong}
+    while q:
+        path = q.popleft()
+        for x in lib.logic(path[-1]).Meta.extension_of:
+            n = lib.logic(x).Meta.name
+            if n == weak:
+                return path + [n]
+            if n not in seen:
+                seen.add(n)
+                q.append(path + [n])
+    return None
 
 
 def replay(wit):
